@@ -551,6 +551,24 @@ FIXED_PROGRAMS = [
     [("def", "f", ["p"], [("return", None)]), ("stmt", ("assign", "a", "f(1)"))],
     [("def", "f", ["p"], [("return", "'x'"), ("return", "1")])],
     [("def", "f", ["p"], [("return", "p")]), ("stmt", ("assign", "a", "f(1, 2)"))],
+    # the witness programs of C02_loop_hoist_stale_table_refuted / C02_loop_hoist_fresh_table / C02_param_relabel_refuted
+    [("stmt", ("assign", "mode", "2")), ("stmt", ("if", [("mode > 1", [("assign", "gain", "1.5")])], [("assign", "gain", "0.5")])),
+     ("def", "f", ["p"], [("if", [("p > 1", [("assign", "out", "1")])], [("assign", "out", "2")]), ("return", "out")]),
+     ("def", "g", ["p"], [("assign", "k", "0"), ("while", "k < 2", [("assign", "out", "p * 0.5"), ("assign", "k", "k + 1")]), ("return", "out")]),
+     ("stmt", ("assign", "a", "f(3)")), ("stmt", ("assign", "b", "g(3)"))],
+    [("def", "f", ["p"], [("if", [("p > 1", [("assign", "out", "1")])], [("assign", "out", "2")]), ("return", "out")]),
+     ("def", "g", ["p"], [("assign", "k", "0"), ("while", "k < 2", [("assign", "out", "p * 0.5"), ("assign", "k", "k + 1")]), ("return", "out")]),
+     ("stmt", ("assign", "a", "f(3)")), ("stmt", ("assign", "b", "g(3)"))],
+    [("def", "f", ["p"], [("assign", "q", "p * 2"), ("assign", "p", "1"), ("return", "q")]),
+     ("stmt", ("assign", "x", "2.5")), ("stmt", ("assign", "a", "f(x)"))],
+    # the function of C02_function_result_nonvacuous, and differently typed returns under several call signatures
+    [("def", "f", ["count", "limit"], [("if", [("count < 0", [("return", "False")])], None), ("if", [("count >= limit", [("return", "True")])], None),
+                                       ("return", "count + 1")]),
+     ("stmt", ("assign", "a", "f(3, 10)")), ("stmt", ("assign", "x", "2.5")), ("stmt", ("assign", "b", "f(x, 10)")), ("stmt", ("assign", "c", "f(True, 1)"))],
+    [("stmt", ("if", [("1 > 0", [("assign", "g", "1.5")])], [("assign", "g", "0.5")])),
+     ("def", "f", ["v"], [("if", [("v > 1", [("assign", "r", "v * 2")])], [("assign", "r", "v")]), ("return", "r")]),
+     ("stmt", ("assign", "n", "3")), ("stmt", ("assign", "x", "1.25")), ("stmt", ("assign", "a", "f(n)")), ("stmt", ("assign", "b", "f(x)")),
+     ("stmt", ("assign", "s", "'t'")), ("stmt", ("assign", "c", "f(s)"))],
 ]
 
 
